@@ -79,7 +79,7 @@ def table_of(name, db_uri, material=True):
         rows.append({'id': int(dbk.id), 'parent': _int(dbk.parent_id, 0), 'depth': _int(dbk.depth), 'path': codes(dbk.path),
                      'net': dbk.network_name, 'wt': dbk.witness_type, 'acct': _int(dbk.account_id), 'ch': _int(dbk.change),
                      'idx': _int(dbk.address_index), 'addr': codes(dbk.address or ''), 'P': list(dbk.public or b''),
-                     'cos': _int(dbk.cosigner_id, 0), 'kt': dbk.key_type or ''})
+                     'cos': _int(dbk.cosigner_id, 0), 'kt': dbk.key_type or '', 'purpose': _int(dbk.purpose, 0)})
     try:
         w.session.close()
     except Exception:
@@ -107,6 +107,42 @@ def key_records(rows, obs, root, rng=None, nleaf=None):
             rec['tok'] = codes(''.join(chr(c) for c in r['path']).split('/')[-1])
         recs.append(rec)
     return recs
+
+
+PURPOSE = {'legacy': 44, 'p2sh-segwit': 49, 'segwit': 84}      # driver only: to spell requests
+
+
+def spelling(a, kw, variant):
+    """One of the documented spellings of the request 'the key(s) of chain (net, wt, acct, ch) from index idx':
+    (path argument, position keyword arguments, remaining keyword arguments)."""
+    sp, ch, idx, acct = a.get('spell', 'args'), a['ch'], a['idx'], a['acct']
+    kwp = dict(kw)
+    mark = "'" if variant % 2 else ''
+    if sp == 'args':
+        return [], {'change': ch, 'address_index': idx}, kwp
+    if sp == 'list':
+        return [ch, idx], {}, kwp
+    if sp == 'str':
+        return '%d/%d' % (ch, idx), {}, kwp
+    if sp == 'index':                                   # [index] + change argument
+        return [idx], {'change': ch}, kwp
+    kwp.pop('account_id', None)                         # the path names the account
+    if sp == 'acct-list':
+        return [('%d%s' % (acct, mark)) if mark else acct, ch, idx], {}, kwp
+    if sp == 'acct-str':
+        return "%d'/%d/%d" % (acct, ch, idx), {}, kwp
+    coin = COIN[a['net']]
+    if sp == 'coin-list':
+        return ["%d'" % coin if mark else coin, acct, ch, idx], {}, kwp
+    if sp == 'full-list':
+        return [PURPOSE[a['wt']], "%d'" % coin, "%d'" % acct if mark else acct, ch, idx], {}, kwp
+    if sp == 'full-str':
+        return "m/%d'/%d'/%d'/%d/%d" % (PURPOSE[a['wt']], coin, acct, ch, idx), {}, kwp
+    raise common.MachineryError('unknown spelling %r' % sp)
+
+
+SPELL_FULL = ['args', 'list', 'str', 'index', 'acct-list', 'acct-list', 'acct-str', 'coin-list', 'full-list', 'full-str']
+SPELL_REL = ['args', 'list', 'str', 'index']          # watch-only and multisig wallets: below the account key
 
 
 class Driver:
@@ -165,17 +201,13 @@ class Driver:
                 else:
                     text, r = 'get_keys(change=%d, number_of_keys=%d, %s)' % (ch, n, kw), w.get_keys(change=ch, number_of_keys=n, **kw)
             elif op == 'key_for_path':
-                if n > 1 and a['form'] == 'path':
-                    text, r = 'keys_for_path([%d, %d], number_of_keys=%d, %s)' % (ch, idx, n, kw), w.keys_for_path([ch, idx], number_of_keys=n, **kw)
-                elif n > 1:
-                    text = 'keys_for_path([], change=%d, address_index=%d, number_of_keys=%d, %s)' % (ch, idx, n, kw)
-                    r = w.keys_for_path([], change=ch, address_index=idx, number_of_keys=n, **kw)
-                elif a['form'] == 'args':
-                    text, r = 'key_for_path([], change=%d, address_index=%d, %s)' % (ch, idx, kw), [w.key_for_path([], change=ch, address_index=idx, **kw)]
-                elif variant % 2:
-                    text, r = 'key_for_path("%d/%d", %s)' % (ch, idx, kw), [w.key_for_path('%d/%d' % (ch, idx), **kw)]
+                path, extra, kwp = spelling(a, kw, variant)
+                if n > 1:
+                    text = 'keys_for_path(%r, number_of_keys=%d, %s)' % (path, n, dict(kwp, **extra))
+                    r = w.keys_for_path(path, number_of_keys=n, **dict(kwp, **extra))
                 else:
-                    text, r = 'key_for_path([%d, %d], %s)' % (ch, idx, kw), [w.key_for_path([ch, idx], **kw)]
+                    text = 'key_for_path(%r, %s)' % (path, dict(kwp, **extra))
+                    r = [w.key_for_path(path, **dict(kwp, **extra))]
             elif op == 'new_account':
                 kw.pop('account_id', None)
                 if a['acct'] >= 0:
@@ -190,6 +222,17 @@ class Driver:
                                                    'block_height': None, 'fee': None, 'size': 0, 'value': 100000, 'script': '', 'date': None}],
                                rescan_all=False)
                 r = []
+            elif op == 'export' and a.get('spell') in ('offset-', 'offset-path', 'offset+'):
+                # the account key asked for through key_for_path with a level offset
+                kw2 = dict(kw)
+                if a['spell'] == 'offset-path':
+                    kw2.pop('account_id', None)
+                    path, off = [a['acct']], w.depth_public_master - w.key_depth
+                else:
+                    kw2['account_id'] = a['acct']
+                    path, off = [], (w.depth_public_master - w.key_depth if a['spell'] == 'offset-' else w.depth_public_master + 1)
+                text = 'key_for_path(%r, level_offset=%d, %s)' % (path, off, kw2)
+                r = [w.key_for_path(path, level_offset=off, **kw2)]
             elif op == 'export':
                 kw2 = {k: v for k, v in kw.items() if k != 'account_id' or not self.cfg['watch']}
                 text = 'public_master(%s)' % kw2
@@ -229,7 +272,9 @@ class Driver:
 
     def step(self, a, variant):
         if self.gentle and a['op'] in ('new_keys', 'get_keys', 'key_for_path'):
-            a = dict(a, n=1, form='args')
+            a = dict(a, n=1, form='args', spell='args')
+        if a['op'] == 'key_for_path' and 'spell' not in a:
+            a = dict(a, spell='args' if a['form'] == 'args' else 'list')
         ok, out, text = self.call(a, variant)
         self.record(a, ok, out, text)
 
@@ -242,8 +287,14 @@ class Driver:
         own = (cfg['net'], cfg['wt'], cfg['acct'] if watch else self.default_acct)
 
         def req(op, net, wt, acct, ch=0, n=1, idx=0):
-            return {'op': op, 'net': net, 'wt': wt, 'acct': acct, 'ch': ch, 'n': n, 'idx': idx,
-                    'form': rng.choice(['path', 'path', 'args']) if op == 'key_for_path' else 'args'}
+            sp = 'args'
+            if op == 'key_for_path':
+                sp = rng.choice(SPELL_REL if watch or cfg['ms'] else SPELL_FULL)
+            elif op == 'export' and not watch and not cfg['ms']:
+                sp = rng.choice(['public_master', 'public_master', 'offset-', 'offset-path', 'offset+'])
+            # form (for the specification): whether the change chain is given in the path or as an argument
+            return {'op': op, 'net': net, 'wt': wt, 'acct': acct, 'ch': ch, 'n': n, 'idx': idx, 'spell': sp,
+                    'form': 'args' if sp in ('args', 'index') or op != 'key_for_path' else 'path'}
 
         def some_chain():
             x = rng.random()
@@ -315,9 +366,9 @@ class Driver:
             return req('export', net, wt, acct)
         if r < 0.96 and not watch:
             x = rng.random()
-            if x < 0.5:
+            if x < 0.35:
                 net, wt = cfg['net'], cfg['wt']
-            elif x < 0.75:
+            elif x < 0.8:                                # an account of another witness type of the same wallet
                 net, wt = cfg['net'], rng.choice(dict(NETS)[cfg['net']])
             else:                                        # an account in another network (distinct coin type or not)
                 net = rng.choice([n for n, _ in NETS])
@@ -350,8 +401,9 @@ def _pick_ms(self):
     r = rng.random()
 
     def req(op, ch=0, n=1, idx=0, net=None, wt=None):
-        return {'op': op, 'net': net or cfg['net'], 'wt': wt or cfg['wt'], 'acct': 0, 'ch': ch, 'n': n, 'idx': idx,
-                'form': rng.choice(['path', 'args']) if op == 'key_for_path' else 'args'}
+        sp = rng.choice(SPELL_REL) if op == 'key_for_path' else 'args'
+        return {'op': op, 'net': net or cfg['net'], 'wt': wt or cfg['wt'], 'acct': 0, 'ch': ch, 'n': n, 'idx': idx, 'spell': sp,
+                'form': 'args' if sp in ('args', 'index') else 'path'}
     ch = rng.choice([0, 0, 1])
     ix = [k[4] for k in leafs if k[3] == ch]
     t = max(ix) if ix else -1
